@@ -150,6 +150,8 @@ class Interp:
         self.ctor_sites: Dict[str, Set[Atom]] = {}
         self.call_args: Dict[Tuple[tuple, int], dict] = {}
         self.ver = 0
+        self.pending_redo = False
+        self.origin_stop_classes = {"code_data::CodeData"}
         self.unresolved_final: Set[Tuple[str, int, str]] = set()
         self.callees: Dict[int, Set[str]] = {}
         self._changed = False
@@ -181,6 +183,16 @@ class Interp:
         if len(s) != n:
             self.changed = True
         return frozenset([("der", key)])
+
+    SYNTH = ("iter", "values", "getitem", "attr")
+
+    def synth(self, kind: str, a: Atom, *operands: Value) -> Value:
+        """Derived value 'an element / item of a'; idempotent on already synthetic atoms (widening: elem(elem(x)) = elem(x))."""
+        if a[0] == "der" and isinstance(a[1], tuple) and a[1] and a[1][0] in self.SYNTH:
+            if operands:
+                self.der(a[1], *operands)
+            return frozenset([a])
+        return self.der((kind, a), frozenset([a]), *operands)
 
     def site(self, fr: Frame, node: ast.AST, kind: str) -> tuple:
         return (fr.module.name, getattr(node, "lineno", 0), getattr(node, "col_offset", 0), kind)
@@ -333,7 +345,7 @@ class Interp:
                         g = self.call_function(fr, it, [frozenset([a])], {}, None)
                         out |= self.elements(g)
                     else:
-                        out |= self.der(("iter", a), frozenset([a]))
+                        out |= self.synth("iter", a)
                 else:
                     for (o, f), vals in list(self.heap.items()):
                         if o == a and (f == E or f[0] == "k"):
@@ -360,9 +372,9 @@ class Interp:
                     for x in a[1]:
                         out.add(("const", x))
                 elif isinstance(a[1], str):
-                    out |= self.der(("iter", a), frozenset([a]))
+                    out |= self.synth("iter", a)
             elif k in ("der", "ext"):
-                out |= self.der(("iter", a), frozenset([a]))
+                out |= self.synth("iter", a)
         return frozenset(out)
 
     def dict_values(self, v: Value, fr: Optional[Frame] = None) -> Value:
@@ -379,7 +391,7 @@ class Interp:
             elif a[0] == "src":
                 out.add(self.src_ext(a, E))
             elif a[0] in ("der", "ext"):
-                out |= self.der(("values", a), frozenset([a]))
+                out |= self.synth("values", a)
         return frozenset(out)
 
     def read_key(self, v: Value, key, fr: Optional[Frame] = None, keyval: Value = EMPTY) -> Value:
@@ -395,7 +407,7 @@ class Interp:
                     if gi is not None and fr is not None:
                         out |= self.call_function(fr, gi, [frozenset([a]), keyval], {}, None)
                     else:
-                        out |= self.der(("getitem", a), frozenset([a]), keyval)
+                        out |= self.synth("getitem", a, keyval)
                     continue
                 if a in self.dictmaps:
                     out |= self._dictmap_read(a, key, fr)
@@ -425,9 +437,9 @@ class Interp:
                     for x in a[1]:
                         out.add(("const", x))
                 else:
-                    out |= self.der(("getitem", a), frozenset([a]), keyval)
+                    out |= self.synth("getitem", a, keyval)
             elif k in ("der", "ext"):
-                out |= self.der(("getitem", a, key), frozenset([a]), keyval)
+                out |= self.synth("getitem", a, keyval)
             elif k == "class":
                 out.add(a)  # Generic[T] subscription
         return frozenset(out)
@@ -460,7 +472,7 @@ class Interp:
                         todo.append(r[1])
         return None
 
-    def read_attr(self, fr: Frame, v: Value, attr: str, node: Optional[ast.AST] = None) -> Value:
+    def read_attr(self, fr: Frame, v: Value, attr: str, node: Optional[ast.AST] = None, for_call: bool = False) -> Value:
         out: Set[Atom] = set()
         for a in v:
             k = a[0]
@@ -478,7 +490,7 @@ class Interp:
                     else:
                         out |= self.hget(a, ("a", attr))
                 else:
-                    out.add(("extm", attr, a))
+                    out.add(("extm", attr, a)) if for_call else out.update(self.synth("attr", a))
             elif k == "src":
                 clss = self.src_classes(a)
                 handled = False
@@ -497,7 +509,7 @@ class Interp:
                 if not handled:
                     t = self.tg.unfold_rec(self.src_type(a))
                     if clss or t[0] in ("tuple", "tuplefix", "list", "dict", "set", "frozenset") or (t[0] == "leaf" and t[1] in ("str", "int", "bytes", "float")):
-                        out.add(("extm", attr, a))
+                        out.add(("extm", attr, a)) if for_call else out.update(self.synth("attr", a))
                     else:
                         out.add(self.src_ext(a, ("a", attr)))
             elif k == "class":
@@ -515,7 +527,10 @@ class Interp:
                 else:
                     out.add(("ext", a[1] + "." + attr))
             elif k in ("der", "const", "func", "bound", "lam", "extm"):
-                out.add(("extm", attr, a))
+                if for_call and k != "extm":
+                    out.add(("extm", attr, a))
+                else:
+                    out |= self.synth("attr", a[2] if k == "extm" else a)
         return frozenset(out)
 
     def _note_read(self, fr: Frame, cq: str, attr: str, node):
@@ -603,11 +618,16 @@ class Interp:
                 elif a[0] == "src":
                     if kind == "isa":
                         if a[2] and a[2][-1][0] == "t":
-                            out.add(a)
+                            if _names_compatible(a[2][-1][1], names):
+                                out.add(a)
+                        elif a[2] and a[2][-1][0] == "nt" and set(names) <= set(a[2][-1][1]):
+                            pass  # already known not to be an instance of these
                         else:
                             n = self.src_ext(a, ("t", tuple(names)))
                             if self.src_type(n) != ("none",):
                                 out.add(n)
+                    elif a[2] and a[2][-1][0] == "t" and _names_subsumed(a[2][-1][1], names):
+                        pass  # narrowed to one of these classes: the negative branch is infeasible
                     else:
                         n = self.src_ext(a, ("nt", tuple(names)))
                         out.add(n)
@@ -970,7 +990,15 @@ class Interp:
 
     # ------------------------------------------------------------------ calls
     def _e_Call(self, fr, node: ast.Call):
-        fv = self.eval(fr, node.func)
+        if isinstance(node.func, ast.Attribute):
+            base = self.eval(fr, node.func.value)
+            fv = self.read_attr(fr, base, node.func.attr, node.func, for_call=True)
+            fkey = _expr_key(node.func)
+            if fkey:
+                fv = self.apply_facts(fr, fkey, fv)
+            self.record(fr, node.func, fv)
+        else:
+            fv = self.eval(fr, node.func)
         pos: List[Tuple[str, Value]] = []
         for a in node.args:
             if isinstance(a, ast.Starred):
@@ -1117,6 +1145,10 @@ class Interp:
         key = (fi.qual, ctx)
         summ = self.summaries.setdefault(key, {"args": {}, "ret": EMPTY, "memo": None})
         grew = False
+        if recursive:
+            # structural recursion on a sub-object of the same kind as the generic root the activation is already
+            # analysed for (nested code object / nested JSON document): the generic analysis covers it
+            bound = {p: self._drop_same_kind(v, summ["args"].get(p, EMPTY)) for p, v in bound.items()}
         for p, v in bound.items():
             old = summ["args"].get(p, EMPTY)
             new = vjoin(old, v)
@@ -1126,6 +1158,7 @@ class Interp:
         if grew:
             self.changed = True
         if recursive:
+            summ["recursed"] = True
             return summ["ret"]
         memo = summ["memo"]
         if memo is not None and memo[0] == self.ver and not grew:
@@ -1146,6 +1179,7 @@ class Interp:
         for p, v in summ["args"].items():
             env.vars[p] = v
         nf = Frame(fi, fi.module, ctx, env)
+        ver_start = self.ver
         self.stack.append((fi.qual, ctx))
         try:
             self.exec_stmts(nf, fi.node.body)
@@ -1160,11 +1194,43 @@ class Interp:
             if nf.env is not None and nf.returns:
                 ret = vjoin(ret, const(None)) if not _always_returns(fi.node.body) else ret
         new = vjoin(summ["ret"], ret)
-        if new != summ["ret"]:
+        grew_ret = new != summ["ret"]
+        if grew_ret:
             summ["ret"] = new
             self.changed = True
-        summ["memo"] = (self.ver,)
+        # a self-recursive activation consumed its own (then stale) summary: if the summary grew, redo it next time
+        if grew_ret and summ.get("recursed"):
+            self.pending_redo = True  # callers up the stack consumed the stale value too: redo the whole pass
+        summ["memo"] = None if (grew_ret and summ.get("recursed")) else (self.ver,)
+        summ["recursed"] = False
         return summ["ret"]
+
+    def _drop_same_kind(self, v: Value, existing: Value) -> Value:
+        roots = [r for r in existing if r[0] == "src"]
+        if not roots:
+            return v
+        out = set()
+        for a in v:
+            drop = False
+            if a[0] == "src" and a not in existing:
+                for r in roots:
+                    if r[1] != a[1] or len(r[2]) >= len(a[2]):
+                        continue
+                    rt = self.src_type(r)
+                    path = a[2]
+                    while path and path[-1][0] in ("t", "nt"):
+                        path = path[:-1]
+                    if rt != ("none",) and rt in (self.src_type(a), self.src_type(("src", a[1], path))):
+                        drop = True
+                    elif a[2] and a[2][-1][0] == "t":
+                        nm = rt[1].split("::")[-1].split(".")[-1] if rt[0] in ("class", "ext") else None
+                        if nm and nm in a[2][-1][1]:
+                            drop = True
+                    if drop:
+                        break
+            if not drop:
+                out.add(a)
+        return frozenset(out)
 
     def construct(self, fr, node, ci: ClassInfo, pos, kw, starkw: Value = EMPTY) -> Value:
         self.calls_resolved += 1
@@ -1734,14 +1800,19 @@ class Interp:
             self.passes += 1
             v0 = self.ver
             self.unresolved = set()
+            if self.pending_redo:
+                for sm in self.summaries.values():
+                    sm["memo"] = None
+                self.pending_redo = False
             ret = self.call_function(fr, fi, [], dict(args), None)
-            if self.ver == v0:
+            if self.ver == v0 and not self.pending_redo:
                 self.unresolved_final |= self.unresolved
                 return ret
         raise AnalysisError(f"abstract interpretation of {fi.qual} did not converge in {max_passes} passes")
 
     # ---------------------------------------------------------------- queries
-    def origins(self, v: Value, deep: bool = True, through_obj: bool = True) -> Set[Atom]:
+    def origins(self, v: Value, deep: bool = True, through_obj: bool = True, stop_kinds: Tuple[str, ...] = (),
+                through_inst: bool = True) -> Set[Atom]:
         """Leaf atoms (src/const/ext/func/class/...) that v is built from."""
         out: Set[Atom] = set()
         seen: Set[Atom] = set()
@@ -1753,9 +1824,19 @@ class Interp:
             seen.add(a)
             k = a[0]
             if k == "der":
+                if stop_kinds:
+                    try:
+                        if a[1][0][3] in stop_kinds:
+                            continue
+                    except Exception:
+                        pass
                 todo.extend(self.deps.get(a[1], ()))
             elif k == "obj":
-                if through_obj:
+                if self.obj_class(a) in self.origin_stop_classes:
+                    out.add(a)  # a nested code object is a value of its own, not a carrier of its parent's tables
+                elif not through_inst and self.obj_class(a):
+                    out.add(a)
+                elif through_obj:
                     for (o, f), vals in self.heap.items():
                         if o == a:
                             todo.extend(vals)
@@ -1794,6 +1875,23 @@ class Interp:
 
 _NOCONST = object()
 _SCALAR_NAMES = {"int", "float", "str", "bool", "bytes", "complex", "object"}
+
+
+_SUBTYPES = {"bool": {"int"}}
+
+
+def _names_compatible(have, want) -> bool:
+    """Could a value known to be an instance of one of `have` be an instance of one of `want`?"""
+    for h in have:
+        for w in want:
+            if h == w or w in _SUBTYPES.get(h, ()) or h in _SUBTYPES.get(w, ()) or w == "object":
+                return True
+    return False
+
+
+def _names_subsumed(have, want) -> bool:
+    """Every class in `have` is (a subclass of) a class in `want`."""
+    return all(any(h == w or w in _SUBTYPES.get(h, ()) or w == "object" for w in want) for h in have)
 
 
 def _scalar_der(a) -> bool:
